@@ -312,8 +312,82 @@ def is_known_open(known, prop, signature):
 
 MIRI_QUICK = {"C02": 1.0, "C09": 1.0, "C13": 1.0, "C18": 1.0, "C19": 1.0}
 MIRI_THOROUGH = {"C01": 4.0, "C02": 8.0, "C05": 2.0, "C09": 4.0, "C11": 4.0, "C12": 2.0, "C13": 8.0, "C18": 8.0, "C19": 2.0}
-ASAN_THOROUGH = {"C01": 1.0, "C02": 1.0, "C05": 1.0, "C07": 1.0, "C09": 1.0, "C11": 1.0, "C12": 1.0, "C13": 1.0, "C18": 1.0}
+ASAN_THOROUGH = {"C01": 20.0, "C02": 20.0, "C05": 10.0, "C07": 10.0, "C08": 10.0, "C09": 20.0, "C11": 20.0, "C12": 10.0, "C13": 20.0, "C18": 20.0}
 TSAN_THOROUGH = {"C19": 1.0}
+
+FUZZ_THOROUGH = {"C01": "decode", "C02": "decode", "C05": "decode", "C10": "decode", "C14": "decode", "C12": "reveal", "C13": "reveal"}
+FUZZ_SECONDS = int(os.environ.get("VERIF_FUZZ_SECONDS", "240"))
+FUZZ_DIR = os.path.join(ROOT, "fuzz")
+
+
+def fuzz_stage(prop, target, seed, rundir, hard, inconclusive, extra_cov, stages):
+    """G-fuzz: libFuzzer (+ASan) drives the same oracles; a crash is a violation, the artifact is
+    the replay."""
+    t0 = now()
+    shutil.copy(os.path.join(HARNESS, "Cargo.lock"), os.path.join(FUZZ_DIR, "Cargo.lock")) if not os.path.exists(os.path.join(FUZZ_DIR, "Cargo.lock")) else None
+    rc, out = sh(["cargo", "+nightly", "fuzz", "build", "--fuzz-dir", FUZZ_DIR, target], cwd=FUZZ_DIR, timeout=1800)
+    if rc != 0:
+        inconclusive.append("fuzz build failed: " + out[-600:])
+        return
+    binary = os.path.join(FUZZ_DIR, "target/x86_64-unknown-linux-gnu/release", target)
+    corpus = os.path.join(rundir, "fuzz-corpus")
+    art = os.path.join(rundir, "fuzz-artifacts")
+    os.makedirs(corpus, exist_ok=True)
+    os.makedirs(art, exist_ok=True)
+    cmd, _ = build("rel")
+    if target == "decode":
+        sh(list(cmd) + ["--dump-corpus", corpus, "--seed", str(seed)], cwd=HARNESS, timeout=120)
+    env = dict(ENV_BASE, VP_FUZZ_PROP=prop, ASAN_OPTIONS="detect_leaks=0:allocator_may_return_null=1")
+    args = [binary, corpus, "-fork=%d" % NSHARDS, "-max_total_time=%d" % FUZZ_SECONDS, "-timeout=10", "-max_len=600",
+            "-seed=%d" % seed, "-artifact_prefix=" + art + "/", "-print_final_stats=1"]
+    try:
+        p = subprocess.run(args, env=env, cwd=rundir, stdout=subprocess.PIPE, stderr=subprocess.STDOUT, timeout=FUZZ_SECONDS * 3 + 300)
+        rc, log = p.returncode, p.stdout.decode("utf-8", "replace")
+    except subprocess.TimeoutExpired:
+        inconclusive.append("fuzz run exceeded its wall-clock watchdog")
+        return
+    execs = 0
+    for m in re.finditer(r"#(\d+): cov: (\d+) ft: (\d+) corp: (\d+) exec/s:? (\d+)", log):
+        execs = max(execs, int(m.group(1)))
+    m2 = re.findall(r"stat::number_of_executed_units:\s*(\d+)", log)
+    if m2:
+        execs = max(execs, max(int(x) for x in m2))
+    cov = [int(m.group(2)) for m in re.finditer(r"#(\d+): cov: (\d+)", log)]
+    arts = sorted(os.listdir(art))
+    stage = {"build": "fuzz(libFuzzer+ASan)", "target": target, "seconds": FUZZ_SECONDS, "forks": NSHARDS, "executions": execs,
+             "coverage_edges": max(cov) if cov else None, "corpus_files": len(os.listdir(corpus)), "artifacts": len(arts), "exit": rc,
+             "wall_s": round(now() - t0, 1)}
+    stages.append(stage)
+    extra_cov["fuzz"] = stage
+    if execs == 0:
+        inconclusive.append("fuzz stage executed nothing (exit %s): %s" % (rc, log[-400:]))
+    for a in arts[:5]:
+        src = os.path.join(art, a)
+        # run the artifact alone to learn which oracle fired
+        try:
+            q = subprocess.run([binary, src], env=env, cwd=rundir, stdout=subprocess.PIPE, stderr=subprocess.STDOUT, timeout=120)
+            text = q.stdout.decode("utf-8", "replace")
+        except subprocess.TimeoutExpired:
+            text = "timeout"
+        mv = re.search(r"VP-VIOLATION property=(\S+) signature=(\S+) detail=([^\n]*)", text)
+        os.makedirs(os.path.join(ROOT, "replays"), exist_ok=True)
+        keep = os.path.join(ROOT, "replays", "%s-fuzz-%s" % (prop, a[:40]))
+        shutil.copy(src, keep)
+        if mv:
+            sig, detail = mv.group(2), mv.group(3)
+        elif a.startswith("timeout") or a.startswith("slow"):
+            inconclusive.append("fuzz input %s hit the per-input timeout" % keep)
+            continue
+        elif a.startswith("oom"):
+            inconclusive.append("fuzz input %s hit the memory limit" % keep)
+            continue
+        else:
+            sig = "%s:fuzz:%s" % (prop, classify_abort(text))
+            detail = first_report_line(text) or text[-300:]
+        hard.append({"signature": sig, "build": "fuzz", "stream": None, "idx": None, "tier": "thorough",
+                     "detail": "coverage-guided input %s: %s" % (keep, detail[:500]),
+                     "witness": {"fuzz_target": target, "artifact": keep, "input_hex": open(src, "rb").read()[:600].hex()}})
+
 
 ASSUMPTIONS_COMMON = [
     "the reference specification in harness/src/spec (self-checked before every run: RFC 1321 vectors, UTF-8 validator vs std, reference encode/decode and hide/reveal round trips)",
@@ -351,7 +425,7 @@ def _check(prop, tier, seed, rundir, t_start):
     selfcheck_line = out.strip().splitlines()[-1] if out.strip() else ""
 
     # random (non-exhaustive) streams are scaled per tier; exhaustive streams always run in full
-    native_scale = float(os.environ.get("VERIF_SCALE", "4.0" if tier == "quick" else "2.0"))
+    native_scale = float(os.environ.get("VERIF_SCALE", "4.0" if tier == "quick" else "8.0"))
     plan = [("dbg", tier, native_scale), ("rel", tier, native_scale)]
     if tier == "quick" and prop in MIRI_QUICK:
         plan.append(("miri", "miri", MIRI_QUICK[prop]))
@@ -414,6 +488,8 @@ def _check(prop, tier, seed, rundir, t_start):
         stages.append(stage)
 
     extra_cov = {}
+    if tier == "thorough" and prop in FUZZ_THOROUGH:
+        fuzz_stage(prop, FUZZ_THOROUGH[prop], seed, rundir, hard, inconclusive, extra_cov, stages)
     if prop == "C19":
         c19_extra(tier, seed, rundir, merged, hard, inconclusive, extra_cov, stages)
 
@@ -514,12 +590,15 @@ def _check(prop, tier, seed, rundir, t_start):
 
 def first_report_line(text):
     for line in text.splitlines():
-        if "unsafe precondition" in line or "ERROR: AddressSanitizer" in line or "Undefined Behavior" in line or "WARNING: ThreadSanitizer" in line or "panicked at" in line or "error: " in line:
+        if "VP-ABORT" in line or "unsafe precondition" in line or "ERROR: AddressSanitizer" in line or "Undefined Behavior" in line or "WARNING: ThreadSanitizer" in line or "panicked at" in line or "error: " in line:
             return line.strip()[:400]
     return ""
 
 
 def classify_abort(text):
+    m = re.search(r"VP-ABORT non-unwinding panic: ([^\n]{0,160})", text)
+    if m and "unsafe precondition" not in m.group(1):
+        return "non-unwinding-panic:" + re.sub(r"[0-9]+", "N", m.group(1))[:80]
     if "unsafe precondition" in text:
         m = re.search(r"unsafe precondition\(s\) violated: ([a-zA-Z_:<>\[\]]+)", text)
         return "ub-check:" + (m.group(1) if m else "?")
@@ -654,6 +733,13 @@ def c19_extra(tier, seed, rundir, merged, hard, inconclusive, extra_cov, stages)
 def replay(path):
     r = json.load(open(path))
     prop, tag = r["property"], r.get("build") or "dbg"
+    w = r.get("witness") or {}
+    if w.get("artifact"):
+        binary = os.path.join(FUZZ_DIR, "target/x86_64-unknown-linux-gnu/release", w["fuzz_target"])
+        rc, out = sh(["cargo", "+nightly", "fuzz", "build", "--fuzz-dir", FUZZ_DIR, w["fuzz_target"]], cwd=FUZZ_DIR, timeout=1800)
+        p = subprocess.run([binary, w["artifact"]], env=dict(ENV_BASE, VP_FUZZ_PROP=prop), stdout=subprocess.PIPE, stderr=subprocess.STDOUT)
+        print(p.stdout.decode("utf-8", "replace")[-3000:])
+        return 0 if p.returncode == 0 else 1
     if r.get("stream") is None:
         print("replay file carries no case (supervisor-level finding): %s" % r.get("detail"))
         return 2
